@@ -368,6 +368,16 @@ func runC06(r *ev.Run, thorough bool) int {
 			r.Sample(map[string]interface{}{"algo": tasks[i].Algo, "case": tasks[i].Cases[len(tasks[i].Cases)/2]})
 		}
 	})
+	// E3: the bundle is handed to two (thorough: three) relays at once - all schedules of Core.forward's sender
+	// threads up to the preemption bound: every relay gets hop count received+1
+	sb, sbud := 2, 1500
+	if thorough {
+		sb, sbud = 3, 60000
+	}
+	sexecs := nhSchedRun(r, "C06", nhConcArg{Algo: "epidemic", Mode: "hops", Peers: 2}, sb, sbud)
+	if thorough {
+		sexecs += nhSchedRun(r, "C06", nhConcArg{Algo: "epidemic", Mode: "hops", Peers: 3}, 2, sbud)
+	}
 	r.Add("cases_per_algorithm", int64(len(cases)))
 	r.Add("transmissions_checked", int64(sends))
 	r.Add("refusals_checked", int64(drops))
@@ -375,13 +385,17 @@ func runC06(r *ev.Run, thorough bool) int {
 		r.Violation("C06/vacuous", "none", "no transmission or no refusal observed", nil)
 	}
 	return r.Finish(map[string]interface{}{
-		"evaluations":         len(cases) * len(algos),
+		"evaluations":         len(cases)*len(algos) + sexecs,
+		"schedules":           sexecs,
 		"distinct_nontrivial": len(sigs),
 		"rule":                fmt.Sprintf("%d forwarding scenarios per routing algorithm on a live routing.Core: received bundle shapes (with/without previous-node, unknown blocks with keep/remove/replicate/report flags, CRC mixes) x hop count/limit over %v (thorough: the full 0..255 triangle) x bundle-age modes (none / with clock / clock-less) x residence {0,1,999,1000,7000} ms x lifetime ending 1 ms before / 1 ms after / long after the send x first, second and third attempt x direct delivery or relay; every byte string handed to the mock convergence sender is parsed and compared block by block with the accepted bundle; distinct_nontrivial = distinct (algorithm, shape, hop, clock mode, number of sends, refused) signatures observed", len(cases), hops),
 	}, []string{"one long-lived node per batch of 150 scenarios (distinct bundle IDs, store cleaned after each)", "equality of lifetime and elapsed time is not tested (the statement does not fix the boundary); +-1 ms is", strings.TrimSpace("virtual clock decides residence times exactly")})
 }
 
 func replayC06(kind string, c json.RawMessage) (string, bool) {
+	if kind == "sched" {
+		return c08ReplaySched(c)
+	}
 	return "C06 cases are enumerated deterministically: re-run the check (the violating scenario is described in the artefact)", false
 }
 
